@@ -96,7 +96,15 @@ def run_history(tree, init):
         if kind == "create":
             _, fz, daz, rn = node
             cur = reg()
-            c = fpu.context(FZ=fz, DAZ=daz, RN=rn)
+            try:
+                c = fpu.context(FZ=fz, DAZ=daz, RN=rn)
+            except BaseException as e:  # noqa: BLE001 - every documented mode must be accepted: the exception kind is the observation
+                # (an AssertionError here used to unwind to the nearest `try` like the documented re-entry assertion and silently
+                # truncated the history: a first-order mutant that made RN="towardszero" unreachable survived)
+                prop.append(dict(clause="requested-mode-rejected", args=[fz, daz, rn], exc=type(e).__name__, msg=str(e)[:120]))
+                ctxs.append((None, (fz, daz, rn), cur))
+                log(f"create {tri(fz)} {tri(daz)} {rn or 'N'}", type(e).__name__)
+                return
             ctxs.append((c, (fz, daz, rn), cur))
             log(f"create {tri(fz)} {tri(daz)} {rn or 'N'}", "ok")
         elif kind == "body":
@@ -121,6 +129,9 @@ def run_history(tree, init):
                 log(f"enter {i}", "bad-op")
                 return
             c, args, created_at = ctxs[i]
+            if c is None:
+                log(f"enter {i}", "bad-op")
+                return
             before = reg()
             entered = [False]
             raised = [False]
